@@ -156,6 +156,19 @@ class Ctx:
                 return e
         return None
 
+    def guarded_canon(self, body, bb, atom_pat, pol, env=None):
+        """like guarded(), on the canonical index form of the literals (vpa/comp.py): a loop over `0..n` with `v[i]`, over `v.iter().enumerate()`
+        or over `.enumerate().skip(k)` all look the same"""
+        from . import comp as _C
+        pp = P(atom_pat) if isinstance(atom_pat, str) else atom_pat
+        for (atom, p) in self.guards(body, bb):
+            if p != pol:
+                continue
+            e = DEFAULT.match(pp, _C.canon(atom), env)
+            if e is not None:
+                return e
+        return None
+
     def all_paths(self, body, bb, pred):
         """pred(has) must hold on every back-edge-free path entry->bb; has(atom_pat, pol) tests the path's literals.
         -> (ok, offending literal set)"""
